@@ -454,6 +454,8 @@ def loop_test_rule(ctx, rid):
     ctx.rule(rid, "route_contains_loop compares the number of *distinct* source vertices (set semantics: unique()/HashSet) of all route edges with their total number, `distinct < all`", floor=3)
     b = F.need(astar.A + "a_star::bidirectional_ops::route_contains_loop")
     loops = b.natural_loops()
+    if _loop_test_insert_all_form(ctx, F, b):
+        return
     if loops:
         _loop_test_set_form(ctx, b, loops)
         return
@@ -481,6 +483,45 @@ def loop_test_rule(ctx, rid):
     ctx.check(bool(setlike) and not weak, "distinct-count", "the smaller count is not a set-semantics distinct count (found %s): consecutive-only de-duplication misses loops" % [n.split("::")[-1] for n in names][:6], b.where(), detail=[n.split("::")[-1] for n in setlike])
     same = contains(small, lambda s: s == srcs[0]) if srcs else False
     ctx.check(same, "same-vertices", "distinct count is not taken over the same source-vertex list", b.where())
+
+
+def _loop_test_insert_all_form(ctx, F, b):
+    """Ok(!vertices.all(|v| seen.insert(v))) / Ok(vertices.any(|v| !seen.insert(v))): a loop exists iff some insert finds its
+    vertex already present.  False when this shape is not used."""
+    tm = Terms(b)
+    found = None
+    for x in subterms(nosite(tm.return_term())):
+        if x[0] == "call" and (itm(x[1], "all") or itm(x[1], "any")) and len(x[2]) == 2:
+            cl = x[2][1]
+            while cl[0] in ("mut", "ref"):
+                cl = cl[1]
+            if cl[0] == "closure" and cl[1] in F.bodies:
+                crt = clean(Terms(F.bodies[cl[1]]).return_term())
+                neg = False
+                while crt[0] == "un" and crt[1] == "Not":
+                    crt, neg = crt[2], not neg
+                if crt[0] == "call" and re.search(r"(HashSet|BTreeSet)::<.*>::insert$", crt[1].split("{")[0]) and crt[2][1] == ("arg", 2):
+                    found = (x, neg, itm(x[1], "all"))
+    if found is None:
+        return False
+    x, neg, is_all = found
+    # the verdict: Ok(!all(insert)) or Ok(any(!insert))
+    rt = clean(tm.return_term())
+    alts = [a for a in (rt[1] if rt[0] == "phi" else (rt,)) if result_variant(a) == "Ok"]
+    okv = len(alts) == 1
+    if okv:
+        v = agg_payload(alts[0])
+        outer_neg = False
+        while v[0] == "un" and v[1] == "Not":
+            v, outer_neg = v[2], not outer_neg
+        okv = v == clean(x) and ((is_all and not neg and outer_neg) or (not is_all and neg and not outer_neg))
+    ctx.check(okv, "distinct-count", "the result is not `some insert into the set found its vertex already present` (!all(insert) / any(!insert))", b.where(), detail="!all(|v| seen.insert(v))")
+    seq = sequence_form(F, b, x[2][0])
+    G_SRC = G + "src_vertex_id"
+    oks = seq is not None and seq[1] == {("len", ("arg", 1))} and seq[0][0] == "call" and seq[0][1] == G_SRC and seq[0][2][1] == ("field", ("at", ("arg", 1), ("i",)), "edge_id")
+    ctx.check(oks, "all-source-vertices", "the vertices tested are not the source vertices of all route edges, one per edge: %s" % (short(seq[0])[:120] if seq else None), b.where(), detail="src_vertex_id(route[i].edge_id) for every i")
+    ctx.check(okv and oks, "same-vertices", "distinct test is not taken over the source-vertex list", b.where())
+    return True
 
 
 def _loop_test_set_form(ctx, b, loops):
